@@ -28,6 +28,9 @@ C09_OPS = {
 }
 
 
+INEXACT = {"qr_recon", "svd_recon", "svdt_recon", "eigh_recon", "solve"}
+
+
 def degenerate_spectrum(x, tol=1e-6):
     """True if two non-zero singular values of the matrix (across blocks) are
     closer than tol (relative): a truncation may then legitimately keep
@@ -180,7 +183,7 @@ class C09(EngineBase):
                 if degenerate and isinstance(a, tuple):
                     a, b = a[1:], b[1:]
                     st.stats["oracle.skipped_degenerate_truncation"] += 1
-                rtol = 1e-6 if op in ("solve", "svdt_recon", "eigh_recon", "svd_recon", "qr_recon") else 1e-9
+                rtol = 1e-6 if op in INEXACT else 1e-9
                 why = S.same_tensor(a, b, rtol=rtol, atol=1e-9 if rtol > 1e-8 else 1e-11)
                 if why:
                     bad = f"replica 0 (never flushed) vs replica {r}: {why}"
@@ -204,6 +207,15 @@ class C09(EngineBase):
                 for h in st.heaps:
                     h.pop(step["in"][0], None)
             return
+        if op in INEXACT:
+            # factorisations of B and of -B agree only to rounding; carrying
+            # the rounding differences along would let later non-Lipschitz
+            # operations (sqrt near zero, == 0 tests, division) amplify them
+            # into false alarms. Once the results have compared equal, every
+            # replica continues from a memory-disjoint copy of replica 0's.
+            for r in range(1, R):
+                outs[r] = ("ok", S.clone(k0[1]))
+            st.stats["oracle.resynchronised_after_factorisation"] += 1
         for r in range(R):
             ops.bind(step, st.heaps[r], outs[r][1])
         # sync invariants on replica 0's fermionic outputs
